@@ -453,6 +453,31 @@ theorem C15_observation_O2_empty_list_keeps_old_file (flt : Flt) (en0 : Bool) :
       ⟨⟨true, 0, 0, flt.file⟩, true, .ok false⟩ := by
   cases en0 <;> simp [setProps, setDownload, updateIntl, fetchFails, parse, scanLines, runLines, PState.init]
 
+/-- DEFECT of the unchanged code (reproduced on the real handlers, witness in
+corpus/C15/refresh.txt): `filterSetProperties` overwrites `shouldRestart`
+with the result of `update`.  Re-enabling a list whose server now returns an
+empty list (checksum 0 = the zeroed checksum of a disabled list) is accepted
+WITHOUT an engine rebuild although the enabled flag changed: the list is
+enabled, its old file is on disk, the engine does not use it.  A later refresh
+that FAILS for this list but updates another one rebuilds the engine and
+brings the old rules into force — rules in force change in a failed refresh.
+So `C15_failed_refresh_keeps_rules_in_force` holds for histories of refreshes
+only, not for histories that contain such a set_url. -/
+theorem C15_counterexample_reenable_without_rebuild :
+    let rule0 : Bytes := [124, 124, 97, 10]
+    let rule1 : Bytes := [124, 124, 98, 10]
+    let l : LState := ⟨⟨true, 0, 0, none⟩, false, none⟩
+    let s1 := refreshStep ⟨true, false, true⟩ [l, l] [(true, .body rule0 true), (true, .fail)]
+    let s2 := (setURLStep s1 0 ⟨false, false, false⟩ (.body [] true)).1      -- disable list 0
+    let s3 := (setURLStep s2 0 ⟨false, false, true⟩ (.body [] true)).1       -- enable it: empty list served
+    let s4 := refreshStep ⟨true, false, true⟩ s3 [(true, .fail), (true, .body rule1 true)]
+    -- enabled, file still there, but not in force, and set_url asked for no rebuild
+    (s3[0]?.map (fun x => (x.flt.enabled, x.flt.file, x.inForce)) = some (true, some rule0, none) ∧
+     (setURLStep s2 0 ⟨false, false, true⟩ (.body [] true)).2 = .ok false) ∧
+    -- the refresh fails for list 0, its file is untouched, its rules come into force
+    s4[0]?.map (fun x => (x.flt.file, x.inForce)) = some (some rule0, some rule0) := by
+  decide +kernel
+
 /-- Over ANY history of refreshes and set_url requests on a list: there is no
 file and the metadata are zero, or the file is exactly the stored form of one
 complete successful download, and count and checksum are each zero or those of
